@@ -105,8 +105,61 @@ pub fn write_plain(mode: &str, ops: &str) -> Result<Vec<u8>, String> {
 // C18
 // ---------------------------------------------------------------------------------------------
 fn chk_startpos(mode: &str, p: u64, pre: &[u8], ops: &str) -> Result<(), String> {
+    chk_startpos_with(mode, p, pre, &|| build_state(mode, ops))
+}
+/// n tiles whose ids are 2^gapbits apart, no internal compression (millions of them make the leaf size double
+/// inside the write: the writer goes back to the root directory's place a second time)
+fn sparse_state(mode: &str, n: u64, g: u64) -> Result<St, String> {
+    let mut st = fresh(mode == "async");
+    match &mut st {
+        St::S(p) => p.internal_compression = Compression::None,
+        St::A(p) => p.internal_compression = Compression::None,
+    }
+    for i in 0..n {
+        let c = vec![(i % 251) as u8 + 1, (i / 251 % 251) as u8];
+        let r = match &mut st {
+            St::S(p) => p.add_tile(i << g, c),
+            St::A(p) => p.add_tile(i << g, c),
+        };
+        r.map_err(|e| format!("add_tile: {e}"))?;
+    }
+    Ok(st)
+}
+fn chk_startpos_sparse(mode: &str, p: u64, n: u64, g: u64) -> Result<(), String> {
+    let pre: Vec<u8> = (0..p + 777).map(|i| (i * 31 % 251) as u8 + 1).collect();
+    chk_startpos_with(mode, p, &pre, &|| sparse_state(mode, n, g))
+}
+/// starting positions derived from the archive's own geometry (its length, its section offsets and lengths):
+/// a writer that mixes absolute stream positions with archive-relative ones goes wrong exactly at such values
+fn chk_startpos_rel(mode: &str, ops: &str) -> Result<(), String> {
     let reference = write_plain(mode, ops)?;
-    let st = build_state(mode, ops)?;
+    let v = spec::parse(&reference, false).map_err(|e| format!("harness: {e}"))?;
+    let h = &v.header;
+    let len = reference.len() as u64;
+    let mut ps: Vec<u64> = vec![
+        len.saturating_sub(127), len, len + 127, len.saturating_sub(126), len.saturating_sub(128),
+        h.root_off, h.root_len, h.meta_off, h.meta_len, h.leaf_off, h.leaf_len, h.data_off, h.data_len,
+        h.root_off + h.root_len, h.data_off.saturating_sub(127), h.meta_off.saturating_sub(127),
+        h.leaf_off.saturating_sub(127), h.data_len.saturating_sub(127), 2 * len,
+    ];
+    ps.sort_unstable();
+    ps.dedup();
+    for p in ps {
+        if p == 0 || p > (1 << 22) {
+            continue;
+        }
+        let pre: Vec<u8> = (0..p + len + 9).map(|i| (i * 7 % 253) as u8 + 1).collect();
+        chk_startpos(mode, p, &pre, ops).map_err(|e| format!("at starting position {p} (archive of {len} bytes): {e}"))?;
+    }
+    Ok(())
+}
+fn chk_startpos_with(mode: &str, p: u64, pre: &[u8], build: &dyn Fn() -> Result<St, String>) -> Result<(), String> {
+    let reference = {
+        let (r, core) = write_to(build()?, Core::new(Vec::new(), 0));
+        res(r, "to_writer")?;
+        core.data
+    };
+    let st = build()?;
     // a sink that accepts a varying number of bytes per write call (a writer may legally do so)
     let mut sink = Core::new(pre.to_vec(), p);
     sink.sched = crate::streams::Schedule { chunks: vec![50, 3, 1 << 20, 7, 4096], pend: vec![] };
